@@ -12,6 +12,7 @@ use vcommon::ser::{self, Format, Style};
 use vcommon::tape::Tape;
 
 use crate::emit;
+use crate::emit_c02;
 use crate::plan::{self, KeyPlan, Plan, PlanOpts};
 use crate::run;
 
@@ -22,6 +23,7 @@ pub fn dispatch(prop: &str, ctx: Ctx) -> ! {
         "C04" => render_prop(ctx, &c04()),
         "C05" => render_prop(ctx, &c05()),
         "C06" => render_prop(ctx, &c06()),
+        "C02" => render_prop(ctx, &c02()),
         "warmup" => warmup(ctx),
         other => {
             eprintln!("harness error: l2 does not serve property {other:?}");
@@ -43,6 +45,8 @@ pub struct RenderProp {
     pub min_nontrivial: usize,
     /// post-processing of the generated project (property-specific shaping)
     pub shape: Option<fn(&mut Project, &mut Tape)>,
+    /// observe every accessor flavour (C02) instead of the three td back-ends
+    pub flavours: bool,
 }
 
 fn fail(sig: &str, detail: J) -> Failure {
@@ -198,13 +202,13 @@ fn emit_pkg(ws: &Path, pkg: &Pkg, rp: &RenderProp, only_keys: Option<&BTreeSet<u
         }
         None => &pkg.plan,
     };
-    let main = emit::main_rs(plan, pkg.project.locales.len(), &rp.opts);
+    let main = if rp.flavours { emit_c02::main_rs(plan, pkg.project.locales.len()) } else { emit::main_rs(plan, pkg.project.locales.len(), &rp.opts) };
     let style = Style {
         format: Format::Json,
         seed: pkg.style_seed,
         escapes: 1,
     };
-    emit::write_package(&ws.join(&pkg.name), &pkg.name, &pkg.project, &main, &style, emit::FEATURES_STD, "")
+    emit::write_package(&ws.join(&pkg.name), &pkg.name, &pkg.project, &main, &style, emit::FEATURES_STD, if rp.flavours { emit_c02::EXTRA_DEPS } else { "" })
 }
 
 /// compare one package's output with the model; returns per-key case infos or the first failure
@@ -218,6 +222,9 @@ fn compare_pkg(pkg: &Pkg, out: &run::RunOutput, rp: &RenderProp, only_keys: Opti
         ));
     }
     let mut infos = vec![];
+    if rp.flavours {
+        return compare_flavours(pkg, out, rp, only_keys);
+    }
     for k in &pkg.plan.keys {
         if k.has_formatter {
             continue;
@@ -299,6 +306,63 @@ fn compare_pkg(pkg: &Pkg, out: &run::RunOutput, rp: &RenderProp, only_keys: Opti
             } else {
                 None
             },
+            observations,
+        });
+    }
+    Ok(infos)
+}
+
+/// C02: every flavour must show the model's text (hence the same text as every other flavour)
+fn compare_flavours(pkg: &Pkg, out: &run::RunOutput, rp: &RenderProp, only_keys: Option<&BTreeSet<usize>>) -> Result<Vec<CaseInfo>, Failure> {
+    let p = &pkg.project;
+    let mut infos = vec![];
+    for k in &pkg.plan.keys {
+        if k.has_formatter {
+            continue;
+        }
+        if let Some(set) = only_keys {
+            if !set.contains(&k.idx) {
+                continue;
+            }
+        }
+        let a = &k.assigns[0];
+        let mut observations = 0u64;
+        let fl = emit_c02::flavours(k);
+        for li in 0..p.locales.len() {
+            for ci in emit_c02::count_indices(a) {
+                let exp_s = plan::expected(p, k, li, a, ci, false).map_err(|e| fail("harness-model", json!({"error": format!("{e:?}")})))?;
+                let exp_v = plan::expected(p, k, li, a, ci, true).map_err(|e| fail("harness-model", json!({"error": format!("{e:?}")})))?;
+                let mut seen: BTreeMap<String, String> = BTreeMap::new();
+                for (f, is_view) in &fl {
+                    let id = format!("{}|{}|{}:{}", k.idx, li, ci, f);
+                    let got = out.obs.get(&id);
+                    let got_norm = got.map(|g| if *is_view { run::decode_html(g) } else { g.clone() });
+                    observations += 1;
+                    let exp = if *is_view { &exp_v } else { &exp_s };
+                    if let Some(g) = &got_norm {
+                        seen.insert(f.clone(), g.clone());
+                    }
+                    if got_norm.as_deref() != Some(exp.as_str()) {
+                        let count = a.loop_var.as_ref().map(|(v, kind, pr)| format!("{} = {}", v, plan::count_display(pr[ci], kind)));
+                        return Err(fail(
+                            &format!("flavour-differs:{}", f.split(':').last().unwrap_or(f).trim_end_matches(char::is_numeric)),
+                            json!({
+                                "package": pkg.name, "key": emit::key_tokens(k), "key_index": k.idx, "locale": p.locales[li],
+                                "flavour": f, "vars": a.vars, "count": count, "expected": exp, "actual": got_norm, "raw": got,
+                                "other_flavours_so_far": seen,
+                            }),
+                        ));
+                    }
+                }
+            }
+        }
+        let mut classes = std_key_classes(k);
+        classes.extend((rp.classes)(k));
+        infos.push(CaseInfo {
+            hash: k.hash,
+            nontrivial: (rp.nontrivial)(k),
+            classes,
+            sample: if (rp.nontrivial)(k) { Some(json!({"key": emit::key_tokens(k), "locales": p.locales, "flavours": fl.iter().map(|(f, _)| f.clone()).collect::<Vec<_>>()})) } else { None },
             observations,
         });
     }
@@ -540,6 +604,7 @@ pub fn c01() -> RenderProp {
         assumptions: &["literal text never contains { } < > or `$t(`", "keys whose value uses a formatter are observed by C18, not here"],
         min_nontrivial: 10,
         shape: None,
+        flavours: false,
     }
 }
 
@@ -579,6 +644,7 @@ pub fn c03() -> RenderProp {
         assumptions: &[],
         min_nontrivial: 10,
         shape: None,
+        flavours: false,
     }
 }
 
@@ -629,6 +695,7 @@ pub fn c04() -> RenderProp {
         assumptions: &["every generated integer range has a fallback (a non-exhaustive `match` does not compile)", "empty ranges such as `5..5` / `..MIN` are not generated (rejection of them is allowed)"],
         min_nontrivial: 10,
         shape: None,
+        flavours: false,
     }
 }
 
@@ -671,6 +738,7 @@ pub fn c05() -> RenderProp {
         assumptions: &["no fallback between locales in this generator: which locale's rules apply to an inherited plural is not specified"],
         min_nontrivial: 10,
         shape: None,
+        flavours: false,
     }
 }
 
@@ -710,5 +778,48 @@ pub fn c06() -> RenderProp {
         assumptions: &["`$t` inside a component body is outside the generated domain"],
         min_nontrivial: 10,
         shape: None,
+        flavours: false,
+    }
+}
+
+pub fn c02() -> RenderProp {
+    RenderProp {
+        id: "C02",
+        cfg: |_| GenCfg {
+            locales: (1, 3),
+            p_namespaces: 50,
+            keys: (4, 6),
+            sub_depth: 2,
+            w_kinds: [2, 6, 2, 3, 3, 5, 2],
+            p_null: 5,
+            p_absent: 5,
+            p_kind_varies: 10,
+            p_inherits: 20,
+            max_pieces: 4,
+            max_comp_depth: 2,
+            plural_locales_only: true,
+            ..GenCfg::default()
+        },
+        opts: PlanOpts {
+            assignments: 1,
+            max_counts: 8,
+            ..PlanOpts::default()
+        },
+        packages: (24, 320),
+        tape_len: 2000,
+        nontrivial: |k| (k.pieces_max >= 2 && !k.sig.is_empty()) || k.has_range || k.has_plural || k.path.len() + k.ns.iter().count() >= 2,
+        classes: |k| vec![format!("path-depth:{}", k.path.len() + k.ns.iter().count())],
+        rule: "generated packages (interpolations, ranges, plurals, literals of every JSON type, keys under 1-3 levels of namespaces / \
+               subkeys); one context per package created natively (ssr, cookie and header getters returning None) and switched with \
+               set_locale; for every (locale, key, argument assignment, up to 3 counts) the observations t!/tu!/td! (to_html), \
+               t_string!/tu_string!/td_string!, t_display!/tu_display!/td_display!, the const chain get_keys_const().a().b().inner() \
+               for literal keys, and for every proper prefix of the key path scope_i18n! (direct and chained one segment at a time), \
+               use_i18n_scoped!, scope_locale! (direct and chained) must all equal the model's rendering, hence each other. one case = \
+               one key; non-trivial = interpolation / range / plural key, or a key reached through >=1 scope; distinct = hash of the \
+               resolved values",
+        assumptions: &["reactive re-rendering after set_locale is covered by C16; here every flavour is evaluated after the switch"],
+        min_nontrivial: 10,
+        shape: None,
+        flavours: true,
     }
 }
